@@ -335,6 +335,9 @@ Section Prims.
     (* ---- a local vector, indexing, cloning and pushing elements (callee methods of clone()) ---- *)
     else if is "MiniVec::new" then
       match args with [] => lift_k (new_obj cfg) VObj s k | _ => stuck f s end
+    else if is "MiniVec::with_capacity" then
+      (* a local vector with room for c elements: the body of with_capacity (EquivCtor.v) as a callee *)
+      match args with [VInt c] => lift_k (with_capacity_body cfg c) VObj s k | _ => stuck f s end
     else if is "index" then
       match args with [VObj v; VInt i] => lift_k (index_at cfg v i) VInt s k | _ => stuck f s end
     else if is ".clone" then
